@@ -156,6 +156,10 @@ class Normalizer(ast.NodeTransformer):
         return node
 
     @staticmethod
+    def _is_ref(e) -> bool:
+        return isinstance(e, (ast.Name, ast.Subscript)) or (isinstance(e, ast.Attribute) and Normalizer._is_ref(e.value))
+
+    @staticmethod
     def _is_none(e) -> bool:
         return isinstance(e, ast.Constant) and e.value is None
 
@@ -164,6 +168,9 @@ class Normalizer(ast.NodeTransformer):
             a, b = node.body[0], node.orelse[0]
             # a conditional with a None arm selects between kinds of value: it stays a statement (the interpreters fork on it)
             if isinstance(a, ast.Assign) and isinstance(b, ast.Assign) and (self._is_none(a.value) or self._is_none(b.value)):
+                return node
+            # a choice between two existing objects (`src = candle if first else candles[i - 1]`) is kept as a statement too
+            if isinstance(a, ast.Assign) and isinstance(b, ast.Assign) and self._is_ref(a.value) and self._is_ref(b.value) and (isinstance(a.value, ast.Subscript) or isinstance(b.value, ast.Subscript)):
                 return node
             if (
                 isinstance(a, ast.Assign) and isinstance(b, ast.Assign) and len(a.targets) == 1 and len(b.targets) == 1
@@ -346,10 +353,11 @@ class Normalizer(ast.NodeTransformer):
         stmts = [y for st in stmts for y in split_ret(st)]
 
         def split_none(st):
-            if isinstance(st, ast.Assign) and len(st.targets) == 1 and isinstance(st.targets[0], ast.Name) and isinstance(st.value, ast.IfExp) and (self._is_none(st.value.body) or self._is_none(st.value.orelse) or isinstance(st.value.body, ast.IfExp) or isinstance(st.value.orelse, ast.IfExp)):
+            if isinstance(st, ast.Assign) and len(st.targets) == 1 and isinstance(st.targets[0], ast.Name) and isinstance(st.value, ast.IfExp) and (self._is_none(st.value.body) or self._is_none(st.value.orelse) or isinstance(st.value.body, ast.IfExp) or isinstance(st.value.orelse, ast.IfExp) or (self._is_ref(st.value.body) and self._is_ref(st.value.orelse))):
                 v = st.value
                 has_none = any(self._is_none(n) for n in (v.body, v.orelse)) or any(isinstance(x, ast.IfExp) and any(self._is_none(y) for y in ast.walk(x)) for x in (v.body, v.orelse))
-                if not has_none:
+                obj_choice = self._is_ref(v.body) and self._is_ref(v.orelse) and (isinstance(v.body, ast.Subscript) or isinstance(v.orelse, ast.Subscript))
+                if not has_none and not obj_choice:
                     return [st]
                 import copy as _c
 
